@@ -93,13 +93,16 @@ def one_scenario(chk, idx, branch):
         # sometimes one unit was never run (a gcno without gcda: it contributes its lines with zero counts), and the
         # run asks for the covered or the uncovered files only: every discovered artifact still counts
         orphan = rng.choice(stems) if rng.random() < 0.5 else None
+        dotted = rng.choice(stems) if rng.random() < 0.4 else None      # one unit named like CMake does: file.c.gcno / file.c.gcda
+        names = {}
         for st in stems:
             gn = open(os.path.join(vlib.REPO, "test", "llvm", st + ".gcno"), "rb").read()
             gda = open(os.path.join(vlib.REPO, "test", "llvm", st + ".gcda"), "rb").read()
-            open(os.path.join(gd, st + ".gcno"), "wb").write(gn)
+            nm = names[st] = st + (".c" if st == dotted else "")
+            open(os.path.join(gd, nm + ".gcno"), "wb").write(gn)
             if st != orphan:
-                open(os.path.join(gd, st + ".gcda"), "wb").write(gda)
-            gc.append({"gcno": gn.hex(), "gcdas": [gda.hex()] if st != orphan else [], "branch": branch, "stem": st})
+                open(os.path.join(gd, nm + ".gcda"), "wb").write(gda)
+            gc.append({"gcno": gn.hex(), "gcdas": [gda.hex()] if st != orphan else [], "branch": branch, "stem": nm})
         args.append(gd)
         extra = ["--llvm"] if rng.random() < 0.7 else []
         if rng.random() < 0.5:
@@ -113,7 +116,7 @@ def one_scenario(chk, idx, branch):
         for st, r in zip(stems, pg):
             bt = [[n, gen.cov_canon(c)] for n, c in r["ok"]] if "ok" in r else None
             batches.append(bt)
-            key_batch["%s#gcno#0" % st] = bt
+            key_batch["%s#gcno#0" % names[st]] = bt
     expected = by_path(batches)
     reports = []
     # sometimes one plain-file argument is listed twice: every listed path is an input, wherever it stands
